@@ -28,9 +28,18 @@ pub open spec fn in_some_unit<R: Reader<Offset = usize>>(us: Seq<RUnit<R>>, lo: 
 pub open spec fn section_wf<R: Reader<Offset = usize>>(us: Seq<RUnit<R>>, g: G) -> bool {
     &&& units_ordered(us)
     &&& forall|k: K| #[trigger] g.contains_key(k) ==> in_some_unit(us, 0, k)
-    &&& forall|i: int| 0 <= i < us.len() ==> root_ok(#[trigger] us[i].header) && !g.contains_key(root_key(us[i].header))
+    &&& roots_wf(us, g)
     &&& g.dom().len() < usize::MAX
 }
+/// W-ROOT: every unit has a root entry, and no root is a registered entry of the graph
+pub open spec fn roots_wf<R: Reader<Offset = usize>>(us: Seq<RUnit<R>>, g: G) -> bool {
+    forall|i: int| 0 <= i < us.len() ==> root_ok(#[trigger] us[i].header) && !g.contains_key(root_key(us[i].header))
+}
+/// W-ORDER, instantiated
+pub proof fn lemma_units_apart<R: Reader<Offset = usize>>(us: Seq<RUnit<R>>, i: int, j: int, a: K, b: K)
+    requires units_ordered(us), 0 <= i < j < us.len(), in_unit(us[i].header, a), in_unit(us[j].header, b),
+    ensures a.0 < b.0,
+{}
 /// [C19:reserve-reachable-only] cuts[i]..cuts[i+1] is EXACTLY the set of positions of r whose offset lies in unit i
 pub open spec fn partition_ok<R: Reader<Offset = usize>>(us: Seq<RUnit<R>>, r: Seq<K>, cuts: Seq<int>, k: int) -> bool {
     &&& cuts.len() == k + 1 && cuts[0] == 0
@@ -62,4 +71,81 @@ pub proof fn lemma_root_in_unit<R: Reader<Offset = usize>>(h: Hdr<R>)
     ensures in_unit(h, root_key(h)),
 {
     assert(UnitOffset((root_key(h).0 - h.spec_offset().0) as usize) == h.root_spec());
+}
+
+// ---- the partitioning loop of new_with_filter
+/// `k` lies in one of the units us[..hi]
+pub open spec fn in_earlier_unit<R: Reader<Offset = usize>>(us: Seq<RUnit<R>>, hi: int, k: K) -> bool {
+    exists|i: int| 0 <= i < hi && #[trigger] in_unit(us[i].header, k)
+}
+/// bookkeeping at unit k with e offsets consumed: the consumed offsets lie in earlier units, the others in unit k or later
+pub open spec fn split_inv<R: Reader<Offset = usize>>(us: Seq<RUnit<R>>, r: Seq<K>, k: int, e: int) -> bool {
+    &&& 0 <= k <= us.len() && 0 <= e <= r.len()
+    &&& forall|j: int| 0 <= j < e ==> in_earlier_unit(us, k, #[trigger] r[j])
+    &&& forall|j: int| e <= j < r.len() ==> in_some_unit(us, k, #[trigger] r[j])
+}
+/// unit k takes the maximal run r[s..e] of offsets inside it: the partition and the bookkeeping advance to unit k + 1
+pub proof fn lemma_partition_step<R: Reader<Offset = usize>>(us: Seq<RUnit<R>>, r: Seq<K>, cuts: Seq<int>, k: int, s: int, e: int)
+    requires
+        units_ordered(us), sorted_by_offset(r), 0 <= k < us.len(),
+        partition_ok(us, r, cuts, k), cuts[k] == s, split_inv(us, r, k, s), s <= e <= r.len(),
+        forall|j: int| s <= j < e ==> in_unit(us[k].header, #[trigger] r[j]),
+        e == r.len() || !in_unit(us[k].header, r[e]),
+    ensures
+        partition_ok(us, r, cuts.push(e), k + 1), split_inv(us, r, k + 1, e),
+{
+    let c2 = cuts.push(e);
+    assert forall|j: int| e <= j < r.len() implies in_some_unit(us, k + 1, #[trigger] r[j]) by {
+        assert(in_some_unit(us, k, r[j]));
+        let i = choose|i: int| k <= i < us.len() && #[trigger] in_unit(us[i].header, r[j]);
+        if i == k {
+            assert(!in_unit(us[k].header, r[e]));
+            assert(in_some_unit(us, k, r[e]));
+            let i2 = choose|i2: int| k <= i2 < us.len() && #[trigger] in_unit(us[i2].header, r[e]);
+            assert(in_unit(us[k].header, r[j]) && in_unit(us[i2].header, r[e]));      // W-ORDER: r[j].0 < r[e].0
+            assert(r[e].0 <= r[j].0);                                                   // sorted
+            assert(false);
+        }
+        assert(in_unit(us[i].header, r[j]));
+    }
+    assert forall|j: int| 0 <= j < e implies in_earlier_unit(us, k + 1, #[trigger] r[j]) by {
+        if j < s {
+            assert(in_earlier_unit(us, k, r[j]));
+            let i = choose|i: int| 0 <= i < k && #[trigger] in_unit(us[i].header, r[j]);
+            assert(in_unit(us[i].header, r[j]));
+        } else {
+            assert(in_unit(us[k].header, r[j]));
+        }
+    }
+    assert forall|i: int, j: int| #![trigger c2[i], r[j]] 0 <= i < k + 1 && 0 <= j < r.len() implies ((c2[i] <= j < c2[i + 1]) <==> in_unit(us[i].header, r[j])) by {
+        if i < k {
+            assert(c2[i] == cuts[i] && c2[i + 1] == cuts[i + 1]);
+        } else {
+            assert(c2[k] == s && c2[k + 1] == e);
+            if in_unit(us[k].header, r[j]) {
+                if j < s {
+                    assert(in_earlier_unit(us, k, r[j]));
+                    let i0 = choose|i0: int| 0 <= i0 < k && #[trigger] in_unit(us[i0].header, r[j]);
+                    assert(in_unit(us[i0].header, r[j]) && in_unit(us[k].header, r[j]));
+                    assert(false);
+                }
+                if j >= e {
+                    assert(in_some_unit(us, k + 1, r[j]));
+                    let i1 = choose|i1: int| k + 1 <= i1 < us.len() && #[trigger] in_unit(us[i1].header, r[j]);
+                    assert(in_unit(us[k].header, r[j]) && in_unit(us[i1].header, r[j]));
+                    assert(false);
+                }
+            }
+        }
+    }
+    assert forall|i: int| 0 <= i < k + 1 implies #[trigger] c2[i] <= c2[i + 1] by {
+        if i < k { assert(c2[i] == cuts[i] && c2[i + 1] == cuts[i + 1]); assert(cuts[i] <= cuts[i + 1]); }
+    }
+}
+/// after the last unit nothing is left over (the debug_assert_eq!(end, offsets.len()) of new_with_filter)
+pub proof fn lemma_partition_end<R: Reader<Offset = usize>>(us: Seq<RUnit<R>>, r: Seq<K>, e: int)
+    requires split_inv(us, r, us.len() as int, e),
+    ensures e == r.len(),
+{
+    if e < r.len() { assert(in_some_unit(us, us.len() as int, r[e])); }
 }
